@@ -20,8 +20,16 @@ def decide(ck, arts, prop="C03"):
     r = ck.tlc("ScannerProduct", timeout=2400)
     if not r.ok:
         raise vp.Infra("ScannerProduct did not complete:\n" + r.out[-3000:])
-    if r.printed("PARSEERROR"):
-        bad = [arts[d["id"]] for d in r.printed("PARSEERROR")][:3]
+    perr = [arts[d["id"]] for d in r.printed("PARSEERROR")]
+    # the generator never puts two definitions with the same value into one set: "multiple definitions with the same value" on
+    # such a set is a definition conflict reported where no text is matched by two definitions (the property's own words)
+    dup = [a for a in perr if "multiple definitions with the same value" in a["perr"]]
+    for a in dup:
+        ck.violation("spurious definition conflict: the definitions %s have pairwise different values, emerge reports: %s" %
+                     ([x["name"] for x in a["defs"]], a["perr"].replace("\n", " ")[:300]),
+                     {"property": prop, "kind": "spurious-duplicate", "spec": a["text"], "defs": a["defs"]})
+    if len(perr) > len(dup):
+        bad = [a for a in perr if a not in dup][:3]
         raise vp.Infra("generated specification rejected by spec.Parse (C07's business, not C03): %r" %
                        [(b["text"], b["perr"]) for b in bad])
     ck.coverage["traces_validated_against_impl"] += len(arts)
